@@ -56,5 +56,18 @@ claim("C05", "model_checking",
       "Slow classes replay a subset of the behaviours in the quick tier; RateStick/ExplosiveArc/Guderley/Sn/CylindricalSandwich are only constructed in quick.",
       "TLC behaviour enumeration of Session.tla replayed into the real classes + TLA+ trace validation", "DESIGN.md 9 C05")
 
-for p in ["C06", "C07", "C08", "C09", "C10", "C11", "C12", "C13", "C14", "C15", "C16", "C18", "C19", "C20"]:
+claim("C06", "model_checking",
+      "spec/Interp.tla models where the library keeps state between operations (module globals written before they are read, per-call attribute "
+      "overwrite, eager profiles, black-box Noh's cached Newton solution / solver tolerance / initial-conditions dictionary); TLC checks the invariant "
+      "HistoryIndependent over ALL interleavings of Construct/SetTol/Solve/Call on 2 objects (depth in the cfg; the pre-fix variant SharedSolver=TRUE gives "
+      "the 3-step counterexample). TLC then generates behaviours over the concrete stateful classes (3 objects, 2 parameter sets, 5 request variants, 2 times); "
+      "each behaviour and each oracle runs in its own process forked from a pristine parent, every call is compared with the same operations on that one object "
+      "executed first in a fresh process, and the recorded events are validated against Interp by spec/TraceInterp.tla (history tolerance 1e-9 relative, batch "
+      "tolerance 1e-6, or the documented resolution for grid-dependent solvers). A batch-independence sweep (shuffled request with a duplicate and documented edge "
+      "points vs one-point requests) covers every constructible class in both parameter sets.",
+      "Trusted base: TLC; harness/interp.py; a forked child of a parent that only imported exactpack counts as a fresh interpreter; verdicts come from returned values only "
+      "(never from module internals). Behaviours are a seeded sample (VERIF_SEED), not exhaustive; Guderley / Sn / RateStick / ExplosiveArc are not replayed.",
+      "TLC model checking of Interp.tla + TLC-generated behaviours replayed with a fresh-process oracle + TLA+ trace validation", "DESIGN.md 9 C06")
+
+for p in [ "C07", "C08", "C09", "C10", "C11", "C12", "C13", "C14", "C15", "C16", "C18", "C19", "C20"]:
     pending(p, "check under construction in this round (design in DESIGN.md section 9); not claimed until it runs soundly on the unchanged tree")
